@@ -12,7 +12,10 @@ def env_fn_real(env):
             sh = house.store.fetchShare(path)
             if sh is None:
                 sh = house.store.create(path)
-            sh.update(value=v)
+            if isinstance(v, dict):          # multi-field write: may ADD fields the share did not have
+                sh.update(**v)
+            else:
+                sh.update(value=v)
     return fn
 
 
